@@ -306,8 +306,10 @@ def run(ctx):
         # an existing target must not be overwritten: some existence test on dst must dominate the rename
         facts = {(t, p) for t, p, _ in fcfg.facts_at(fcfg.node_of(ren[0]).id)}
         dtext = norm(dst)
-        exists_guard = any(("os.path.exists(" + dtext in t or "os.path.lexists(" + dtext in t) and not p for t, p in facts) or \
-            any(isinstance(n, ast.While) and "exists(" in norm(n.test) and dtext in norm(n.test) for n in ast.walk(ref))
+        from .. import logic as _lg
+
+        prem = _lg.facts_as_premises(fcfg.facts_at(fcfg.node_of(ren[0]).id))
+        exists_guard = any(_lg.implies(prem, _lg.parse(f"not {fnm}({dtext})")) for fnm in ("os.path.exists", "os.path.lexists"))
         ctx.check(exists_guard, "R17.4", "rotate_existing_file:never-overwrites",
                   f"os.rename(src, {dtext}) replaces an existing {dtext} silently (POSIX): the stamp has one-second resolution and nothing tests whether the target exists, so two "
                   "rotations of one path within a second lose the first rotated file", ren[0], "existence of the target is tested before renaming",
